@@ -1,6 +1,8 @@
 """C20 - built-in objectives compute their documented quantity on every sum vector."""
 import itertools, random
 from runtime import harness as H
+from props import _ded as D
+from contracts import objectives as O
 from runtime import t3_misc as T
 
 
@@ -35,5 +37,7 @@ def t3(rep, tier, seed):
 
 def run(rep, tier, seed):
     rep.level = "exploration"
-    rep.assume("A1", "A6", "A8")
+    rep.assume("A1", "A2", "A5", "A6", "A8")
+    D.run_contracts(rep, "C20", O.VALUE_CONTRACTS, tier)
     t3(rep, tier, seed)
+    D.link_falsifier(rep)
